@@ -1,4 +1,6 @@
 """CW-* rules: the count-word protocol (DESIGN.md section 4.1)."""
+import re
+
 from .facts import AnalysisError
 from .report import RuleResult
 from .sym import norm, show, strip, subterms, calls_in
@@ -99,6 +101,32 @@ def ret_bool(ctx, path):
         if e.kind == "cond" and e.term == t and isinstance(e.value, int):
             return bool(e.value) != neg
     return None
+
+
+def split_on_return(ctx, path):
+    """A bool-returning function whose return value is a (negated) State flag that no branch has
+    tested (e.g. `return !old.destructed()` straight after a load) stands for two executions: yield one
+    path per value with the corresponding condition appended."""
+    from .sym import Event, Path
+    rb = ret_bool(ctx, path)
+    if rb is not None or path.ret is None:
+        return [(path, rb)]
+    t = path.ret
+    neg = False
+    while isinstance(t, tuple) and t[0] == "un" and t[1] == "Not":
+        t = t[2]
+        neg = not neg
+    f = ctx.field_of(t)
+    if f is None or f[0] not in ("destructed", "weaked"):
+        return [(path, None)]
+    out = []
+    for v in (0, 1):
+        ev = Event("cond", path.events[-1].bb if path.events else 0, (), path.body, term=t, value=v, exp=False,
+                   span=None, is_bool=True)
+        p2 = Path(path.body, list(path.events) + [ev], path.exit, ("c", int(bool(v) != neg), "bool"), path.blocks)
+        p2.env = getattr(path, "env", None)
+        out.append((p2, bool(v) != neg))
+    return out
 
 
 def first_obs_preds(ctx, path, site):
@@ -239,39 +267,44 @@ def rule_token(ctx):
     for f in fns:
         r.functions.add(f)
         by_class = {"zero": set(), "pos": set()}
-        for p in ctx.paths(f):
+        for p0 in ctx.paths2(f):
             r.paths += 1
-            if p.exit[0] != "return":
+            if p0.exit[0] != "return":
                 # a retry path must not have added anything
+                tot, sites, sym = _added(ctx, p0, "strong")
+                if p0.exit[0] == "retry" and (tot or sym):
+                    r.violate(f, "retry-path", "strong count changed on a path that retries", p0.body.loc(p0.exit[1]))
+                continue
+            for (p, rb) in split_on_return(ctx, p0):
+                if p.ret is not None and p.ret != ("c", "()", "()") and rb is None:
+                    raise AnalysisError("CW-TOKEN: cannot evaluate the return value of %s on a path" % f)
+                if rb is False:
+                    continue
+                sites_all = ctx.sites_on_path(p)
+                if not sites_all:
+                    raise AnalysisError("CW-TOKEN: success path of %s without any access" % f)
                 tot, sites, sym = _added(ctx, p, "strong")
-                if p.exit[0] == "retry" and (tot or sym):
-                    r.violate(f, "retry-path", "strong count changed on a path that retries", p.body.loc(p.exit[1]))
-                continue
-            rb = ret_bool(ctx, p)
-            if p.ret is not None and p.ret != ("c", "()", "()") and rb is None:
-                raise AnalysisError("CW-TOKEN: cannot evaluate the return value of %s on a path" % f)
-            if rb is False:
-                continue
-            sites_all = ctx.sites_on_path(p)
-            if not sites_all:
-                raise AnalysisError("CW-TOKEN: success path of %s without any access" % f)
-            first = sites_all[0]
-            preds = first_obs_preds(ctx, p, first)
-            tot, sites, sym = _added(ctx, p, "strong")
-            if sym:
-                raise AnalysisError("CW-TOKEN: symbolic strong increment in %s" % f)
-            z = has_pred(preds, "strong", "==", 0)
-            nz = has_pred(preds, "strong", "!=", 0)
-            if z and not has_pred(preds, "destructed", "==", 0):
-                r.violate(f, "from-zero", "increments from zero without checking DESTRUCTED on the same observation",
-                          first["event"].loc())
-            if z:
-                by_class["zero"].add(tot)
-            elif nz:
-                by_class["pos"].add(tot)
-            else:
-                r.violate(f, "undecided", "a success path adds %d without deciding whether the observed strong count "
-                          "was zero (no token for a pending destruction attempt)" % tot, first["event"].loc())
+                if sym:
+                    raise AnalysisError("CW-TOKEN: symbolic strong increment in %s" % f)
+                # the decision must be made on the word observed by the RMW that adds (for a CAS: the `current`
+                # of the successful attempt, not a value seen by an earlier, failed one); without any add: on the
+                # last observation
+                first = sites[0] if sites else sites_all[-1]
+                preds = first_obs_preds(ctx, p, first)
+                z = has_pred(preds, "strong", "==", 0)
+                nz = has_pred(preds, "strong", "!=", 0)
+                if z and not has_pred(preds, "destructed", "==", 0):
+                    r.violate(f, "from-zero", "increments from zero without checking DESTRUCTED on the same observation",
+                              first["event"].loc())
+                if z:
+                    by_class["zero"].add(tot)
+                elif nz:
+                    by_class["pos"].add(tot)
+                else:
+                    r.violate(f, "undecided", "a success path adds %d without deciding whether the observed strong count "
+                              "was zero (no token for a pending destruction attempt)" % tot, first["event"].loc())
+        if r.violations and any(v.function == f for v in r.violations):
+            continue
         if len(by_class["pos"]) > 1 or len(by_class["zero"]) > 1:
             r.violate(f, "inconsistent", "different amounts added on equivalent paths: %s" % by_class)
             continue
@@ -297,11 +330,8 @@ def rule_inc_fail_on_destructed(ctx):
     fns = inc_functions(ctx)
     for f in fns:
         r.functions.add(f)
-        for p in ctx.paths(f):
-            if p.exit[0] != "return":
-                continue
+        for (p, rb) in [x for p0 in ctx.paths2(f) if p0.exit[0] == "return" for x in split_on_return(ctx, p0)]:
             r.paths += 1
-            rb = ret_bool(ctx, p)
             if rb is None:
                 raise AnalysisError("CW-INC-FAIL: cannot evaluate return of %s" % f)
             sites = ctx.sites_on_path(p)
@@ -459,7 +489,7 @@ def rule_split_inc(ctx):
                 out.append((b, bi))
         return out
     allsites = set()
-    for f in adders:
+    for f in adders | set(inc_functions(ctx)):
         for (b, bi) in outside_callers(f, {f}):
             allsites.add((b.name, bi))
     nall = len(allsites)
@@ -508,7 +538,7 @@ def rule_zero_defers(ctx):
     nsites = set()
     for f in (DEC_STRONG, DGN):
         r.functions.add(f)
-        for p in ctx.paths(f):
+        for p in (ctx.paths2(f) if f == DEC_STRONG else ctx.paths(f)):
             r.paths += 1
             sites = [s for s in ctx.sites_on_path(p) if s["delta"].get("strong", (0,))[0] < 0]
             for s in sites:
@@ -562,7 +592,7 @@ def rule_attempt_recheck(ctx):
     f = TRY_DESTRUCT
     r.functions.add(f)
     n = 0
-    for p in ctx.paths(f):
+    for p in ctx.paths2(f):
         r.paths += 1
         if p.exit[0] == "diverge":
             continue
@@ -1081,6 +1111,13 @@ def rule_stamp(ctx):
                     r.violate(f, "stamp-source", "the stamp does not derive from a global_epoch() read in this activation",
                               s["event"].loc())
                     continue
+                # allowed forms: the epoch read itself, or a Modular::max merge
+                stv = _uncast(strip(s["stamp"]))
+                direct = isinstance(stv, tuple) and stv[0] == "call" and norm(stv[1]) == "ebr_impl::default::global_epoch"
+                merged = isinstance(stv, tuple) and stv[0] == "call" and norm(stv[1]) == "utils::Modular::max"
+                if not (direct or merged):
+                    r.violate(f, "stamp-form", "the stamp written is neither the global epoch just read nor a Modular::max "
+                              "merge of stamps (%s)" % re.sub(r"#\d+", "", show(stv))[:90], s["event"].loc())
                 for g in ge:
                     # locate the read event
                     gi = None
@@ -1302,3 +1339,132 @@ def _wider(b, t):
     if isinstance(t, tuple) and t[0] == "param_const":
         return True
     return True
+
+
+# ------------------------------------------------------------------------------------------
+def rule_dec_nonzero(ctx):
+    r = RuleResult("CW-DEC-NONZERO", ["C01", "C04", "C10"],
+                   "every call of decrement_strong releases at least one share: with amount 0 the test `observed == amount` "
+                   "hands off a destruction attempt for which no token exists")
+    prog = ctx.prog
+    sites = prog.callers_of(DEC_STRONG)
+    n = 0
+    for (b, bi, t, c) in sites:
+        root = b
+        while root.kind == "closure":
+            root = prog.body(root.j["root"])
+        r.functions.add(root.name)
+        done = False
+        for p in ctx.paths(root.name):
+            ev = [e for e in p.events if e.kind == "call" and e.target == DEC_STRONG and e.bb == bi and e.body is b]
+            if not ev:
+                continue
+            e = ev[0]
+            a = _uncast(e.args[1])
+            cv = const_of(a)
+            if cv is not None:
+                ok = cv >= 1
+            else:
+                ok = False
+                for q in p.events[:p.events.index(e)]:
+                    if q.kind != "cond" or not isinstance(q.term, tuple) or q.term[0] != "bin":
+                        continue
+                    op, l, rr = q.term[1], _uncast(q.term[2]), _uncast(q.term[3])
+                    if _same_value(l, a) and const_of(rr) is not None:
+                        cc, tv = const_of(rr), q.value == 1
+                        if (op in ("Gt", "Ne") and cc == 0 and tv) or (op == "Ge" and cc >= 1 and tv) or \
+                                (op == "Eq" and cc == 0 and not tv) or (op == "Le" and cc == 0 and not tv) or \
+                                (op == "Lt" and cc == 1 and not tv):
+                            ok = True
+            if not done:
+                n += 1
+                done = True
+            r.instance("%s: decrement_strong(_, %s) amount >= 1" % (root.name, show(a)[:40]), ok)
+            if not ok:
+                r.violate(root.name, "amount=" + re.sub(r"@m\d+|#\d+", "", show(a))[:50],
+                          "decrement_strong may be called with amount 0: on an object whose count is already 0 this defers a "
+                          "second try_destruct (double destruction)", e.loc())
+    r.require(n, 7, "decrement_strong call sites")
+    return r
+
+
+def _same_value(a, b):
+    """Same integer value up to memory version of a frozen-by-&mut-borrow field read."""
+    def canon(t):
+        t = _uncast(t)
+        if isinstance(t, tuple) and t[0] == "load":
+            t = t[1]
+        return t
+    return canon(a) == canon(b)
+
+
+STAMP_SOURCES = (ST + "epoch", "ebr_impl::pointers::Tagged::<T>::high_tag")
+STAMP_CONSUMERS = (ST + "with_epoch", "utils::Modular::<WIDTH>::max", "utils::Modular::<WIDTH>::le",
+                   "ebr_impl::pointers::Tagged::<T>::with_high_tag")
+
+
+def _is_stamp(t):
+    t = _uncast(strip(t))
+    return isinstance(t, tuple) and t[0] == "call" and t[1] in STAMP_SOURCES
+
+
+def rule_stamp_modular(ctx):
+    r = RuleResult("CW-STAMP-MODULAR", ["C02", "C12"],
+                   "4-bit epoch stamps (State::epoch, Tagged::high_tag) wrap every 16 epochs: they are consumed only by "
+                   "Modular::{max, le} or copied into with_epoch / with_high_tag, never by plain integer arithmetic or ordering")
+    prog = ctx.prog
+    n = 0
+    users = set()
+    for src in STAMP_SOURCES:
+        for (b, bi, t, c) in prog.callers_of(src):
+            root = b
+            while root.kind == "closure":
+                root = prog.body(root.j["root"])
+            users.add(root.name)
+    for f in sorted(users):
+        r.functions.add(f)
+        seen = set()
+        for p in ctx.paths(f):
+            for e in p.events:
+                terms = []
+                if e.kind == "cond":
+                    if e.exp:
+                        continue
+                    terms = [e.term]
+                elif e.kind == "call":
+                    if e.span and e.span.get("exp"):
+                        continue
+                    # a direct stamp argument to a non-modular consumer
+                    for a in e.args:
+                        parts = [a]
+                        sa = strip(a)
+                        if isinstance(sa, tuple) and sa[0] == "agg":
+                            parts = list(sa[3])
+                        for x in parts:
+                            if _is_stamp(x):
+                                key = (e.bb, e.frame, "arg")
+                                if key in seen:
+                                    continue
+                                seen.add(key)
+                                n += 1
+                                ok = e.target in STAMP_CONSUMERS
+                                r.instance("%s: stamp consumed by %s" % (f.split("::")[-1], (e.ntarget or "?").split("::")[-1]), ok)
+                                if not ok:
+                                    r.violate(f, "consumer:" + (e.ntarget or "?"), "a wrapping epoch stamp is passed to `%s`, "
+                                              "which does not interpret it in the modular window" % e.ntarget, e.loc())
+                    terms = list(e.args)
+                elif e.kind == "store":
+                    terms = [e.value]
+                for t in terms:
+                    for x in subterms(t):
+                        if x[0] == "bin" and x[1] not in ("BitAnd", "BitOr", "Shl", "Shr") and (_is_stamp(x[2]) or _is_stamp(x[3])):
+                            key = (e.bb, e.frame, x[1])
+                            if key in seen:
+                                continue
+                            seen.add(key)
+                            n += 1
+                            r.instance("%s: stamp used in integer %s" % (f, x[1]), False)
+                            r.violate(f, "arith:" + x[1], "plain integer `%s` on a wrapping 4-bit epoch stamp (it is only "
+                                      "meaningful inside the modular window: use Modular::max / Modular::le)" % x[1], e.loc())
+    r.require(n, 2, "stamp uses")
+    return r
